@@ -15,6 +15,7 @@ from entity_query_language import (an, entity, set_of, let, symbolic_mode, rule_
 ALPHA = [0, 1, "", "a", (), (1,), None, False, True]
 CONTAINERS = [(), (0,), (1,), ("",), (0, 1)]
 LITLIST = [0, "", None]
+NAMES = ["", "a", "7"]
 
 ASSUMPTIONS = [
     "attribute values range over the alphabet %r (symbolic choice per object), container attributes over %r, plus unbounded "
@@ -36,6 +37,7 @@ class VObj:
     d: Any = None
     n: Any = 0
     items: Any = None
+    nm: Any = ""
     name: str = ""
 
     def get(self):
@@ -99,6 +101,8 @@ class C19(Case):
             o.c = mk.enum("o%d.c" % i, CONTAINERS)
             o.d = {"k": o.v}
             o.n = mk.int("o%d.n" % i)
+            if sp["kind"].startswith("chain"):
+                o.nm = mk.enum("o%d.nm" % i, NAMES)
             if sp["kind"] == "flatten":
                 o.items = [mk.enum("o%d.e%d" % (i, j), ALPHA) for j in range(2)]
             objs.append(o)
@@ -147,6 +151,16 @@ class C19(Case):
                         q = an(set_of([x, e])) if sp.get("with_parent") else an(entity(e))
                     elif k == "flatten_cmp":
                         raise NotImplementedError
+                    elif k == "chain":      # a chain of mappings in condition position: only the OUTERMOST value is a truth value
+                        q = an(entity(x, x.nm.isdigit()))
+                    elif k == "chain_not":
+                        q = an(entity(x, not_(x.nm.isdigit())))
+                    elif k == "chain_and":
+                        q = an(entity(x, and_(x.n > 0, not_(x.nm.isdigit()))))
+                    elif k == "chain_args":
+                        q = an(entity(x, x.nm.startswith("")))
+                    elif k == "chain_or":
+                        q = an(entity(x, x.nm.isdigit() | (x.n > 0)))
                     elif k == "cond_position":  # control: here truthiness IS the meaning
                         q = an(entity(x, ve))
                     elif k == "not_cond_position":
@@ -234,6 +248,16 @@ class C19(Case):
                 return pred_term(alg, o.c, lambda c: sp["item"] in c)
             if k == "contains_attr":
                 return pred2_term(alg, o.c, o.v, lambda c, a: a in c)
+            if k == "chain":
+                return pred_term(alg, o.nm, lambda a: a.isdigit())
+            if k == "chain_not":
+                return pred_term(alg, o.nm, lambda a: not a.isdigit())
+            if k == "chain_and":
+                return alg.and_(alg.cmp("gt", o.n, 0), pred_term(alg, o.nm, lambda a: not a.isdigit()))
+            if k == "chain_args":
+                return pred_term(alg, o.nm, lambda a: a.startswith(""))
+            if k == "chain_or":
+                return alg.or_(pred_term(alg, o.nm, lambda a: a.isdigit()), alg.cmp("gt", o.n, 0))
             if k == "cond_position":
                 return pred_term(alg, o.v, bool)
             if k == "not_cond_position":
@@ -241,7 +265,7 @@ class C19(Case):
             raise ValueError(k)
 
         if k in ("cmp_lit", "cmp_attr", "int_cmp", "in_lit", "not_in_lit", "contains_lit", "contains_attr", "kw",
-                 "cond_position", "not_cond_position"):
+                 "cond_position", "not_cond_position", "chain", "chain_not", "chain_and", "chain_args", "chain_or"):
             idx = [self._idx(r, objs) for r in res]
             obs.append(("members_in_order", alg.const(all(i >= 0 for i in idx) and all(p < q for p, q in zip(idx, idx[1:])))))
             for i, o in enumerate(objs):
@@ -320,6 +344,8 @@ def shapes(tier, seed):
         out.append(dict(kind="head", access=access, n=n))
         out.append(dict(kind="cond_position", access=access, n=n))
         out.append(dict(kind="not_cond_position", access=access, n=n))
+    for kk in ("chain", "chain_not", "chain_and", "chain_args", "chain_or"):
+        out.append(dict(kind=kk, n=n))
     out.append(dict(kind="cmp_cross", op="eq", n=2))
     out.append(dict(kind="cmp_cross", op="ne", n=2))
     for item in (0, 1, ""):
